@@ -112,15 +112,23 @@ func tparamMap(fn *ssa.Function) map[string]types.Type {
 func resultNames(fn *ssa.Function) [][]string {
 	res := fn.Signature.Results()
 	out := make([][]string, res.Len())
+	// the Go names of the results take precedence over the positional aliases r0, r1, ...: a result that is itself
+	// called r1 must not be shadowed by "the second result"
+	named := map[string]bool{}
 	for i := 0; i < res.Len(); i++ {
-		out[i] = append(out[i], fmt.Sprintf("r%d", i))
+		named[res.At(i).Name()] = true
+	}
+	for i := 0; i < res.Len(); i++ {
+		if alias := fmt.Sprintf("r%d", i); !named[alias] {
+			out[i] = append(out[i], alias)
+		}
 		if n := res.At(i).Name(); n != "" && n != "_" {
 			out[i] = append(out[i], n)
 		}
-		if i == 0 {
+		if i == 0 && !named["result"] {
 			out[i] = append(out[i], "result")
 		}
-		if i == res.Len()-1 && isErrorType(res.At(i).Type()) {
+		if i == res.Len()-1 && isErrorType(res.At(i).Type()) && !named["err"] {
 			out[i] = append(out[i], "err")
 		}
 	}
